@@ -191,12 +191,29 @@ Definition linspace (a b : Q) (n : nat) : list Q :=
   | _ => map (fun i => a + inject_Z (Z.of_nat i) * (b - a) / inject_Z (Z.of_nat (n - 1))) (seq 0 n)
   end.
 
+(** the value of the [file] attribute: the very object that was given as
+    [fname] - a [str] (recorded character by character as given, whatever its
+    spelling: "./x", "a//b", "a/./b", "a/../a/b", relative or absolute) or a
+    [pathlib.Path] object (identified by its [str()]) *)
+Inductive fattr := FStr (s : string) | FPathObj (s : string).
+
+Definition fattr_eqb (a b : fattr) : bool :=
+  match a, b with
+  | FStr x, FStr y | FPathObj x, FPathObj y => String.eqb x y
+  | _, _ => false
+  end.
+
+(** the keys of [attrs], in insertion order, and the DataArray's [name] *)
+Definition attr_keys (fa : option fattr) : list string :=
+  "gridID" :: match fa with Some _ => ["file"] | None => [] end.
+Definition grid_name : option string := None.
+
 Record grid := {
   g_vals : list (list num);      (* row by row; NaN = blank *)
   g_north : list Q;
   g_east : list Q;
   g_id : string;
-  g_file : option string;
+  g_file : option fattr;
   g_dims : list string;
   g_dtype : dtype
 }.
@@ -290,7 +307,7 @@ Definition check_integrity (dt : dtype) (rows : list (list num)) (h : header) : 
 Definition dims : list string := ["northing"; "easting"].
 
 (** the body of the [try] block *)
-Definition read_lines (fileattr : option string) (dt : dtype) (f : list string) : result grid :=
+Definition read_lines (fileattr : option fattr) (dt : dtype) (f : list string) : result grid :=
   bind (parse_header f) (fun h =>
   bind (loadtxt f) (fun rows =>
   bind (check_integrity dt rows h) (fun _ =>
@@ -317,7 +334,7 @@ Record handle := { hd_lines : list string; hd_state : hstate }.
 Definition close (h : handle) : handle := {| hd_lines := hd_lines h; hd_state := Closed |}.
 
 (** reading from a closed file raises ValueError *)
-Definition read_handle (fileattr : option string) (dt : dtype) (h : handle) : result grid :=
+Definition read_handle (fileattr : option fattr) (dt : dtype) (h : handle) : result grid :=
   match hd_state h with
   | Closed => Err EValue
   | Opened => read_lines fileattr dt (hd_lines h)
@@ -329,7 +346,7 @@ Definition bracket {A} (ispath : bool) (h : handle) (body : handle -> result A) 
   let r := body h in
   (r, if ispath then close h else h).
 
-Inductive source := Path (p : string) | FileObj (h : handle).
+Inductive source := Path (p : string) | PathObj (p : string) | FileObj (h : handle).
 
 Record outcome := {
   o_result : result grid;
@@ -337,15 +354,20 @@ Record outcome := {
   o_given : option handle     (* the caller's file object, as the function leaves it *)
 }.
 
+(** [fname] is a path (a [str], or a [pathlib.Path] whose [str()] is [p]):
+    [open(fname)], and [attrs["file"] = fname] - the object as given *)
+Definition load_path (fs : string -> option (list string)) (p : string) (fa : fattr) (dt : dtype) : outcome :=
+  match fs p with
+  | None => {| o_result := Err EIO; o_opened := None; o_given := None |}   (* open() fails *)
+  | Some c =>
+      let rh := bracket true {| hd_lines := c; hd_state := Opened |} (read_handle (Some fa) dt) in
+      {| o_result := fst rh; o_opened := Some (snd rh); o_given := None |}
+  end.
+
 Definition load_surfer (fs : string -> option (list string)) (src : source) (dt : dtype) : outcome :=
   match src with
-  | Path p =>
-      match fs p with
-      | None => {| o_result := Err EIO; o_opened := None; o_given := None |}   (* open() fails *)
-      | Some c =>
-          let rh := bracket true {| hd_lines := c; hd_state := Opened |} (read_handle (Some p) dt) in
-          {| o_result := fst rh; o_opened := Some (snd rh); o_given := None |}
-      end
+  | Path p => load_path fs p (FStr p) dt
+  | PathObj p => load_path fs p (FPathObj p) dt
   | FileObj h =>
       let rh := bracket false h (read_handle None dt) in
       {| o_result := fst rh; o_opened := None; o_given := Some (snd rh) |}
@@ -380,7 +402,9 @@ Record ogrid := {
   og_north : list D;
   og_east : list D;
   og_id : string;
-  og_file : option string;
+  og_file : option fattr;
+  og_attr_keys : list string;     (* list(attrs) *)
+  og_name : option string;        (* DataArray.name *)
   og_dims : list string;
   og_dtype : dtype
 }.
@@ -396,6 +420,7 @@ Record observation := {
 (** how the function was called *)
 Inductive csource :=
   | CPath (p : string) (exists_ : bool)
+  | CPathObj (p : string) (exists_ : bool)      (* pathlib.Path; p = str(path) *)
   | CFile (closed_before : bool).
 
 Definition num_eqb (a b : num) : bool :=
@@ -475,7 +500,7 @@ Definition all_len {A} (n : nat) (rows : list (list A)) : bool :=
     rows x columns values but whose lines do not line up with the header's
     grid rows (swapped counts, another factorisation, lines holding several
     grid rows) disagrees with its header: returning its re-cut is [No]. *)
-Definition grid_is_file (fileattr : option string) (dt : dtype) (f : list string) (g : ogrid) : tri :=
+Definition grid_is_file (fileattr : option fattr) (dt : dtype) (f : list string) (g : ogrid) : tri :=
   match map_opt pint (split_ws (line f 1)),
         map_opt pflt (split_ws (line f 2)),
         map_opt pflt (split_ws (line f 3)),
@@ -490,7 +515,9 @@ Definition grid_is_file (fileattr : option string) (dt : dtype) (f : list string
          && coords_close (linspace (D2Q s) (D2Q n) (Z.to_nat nr)) (og_north g)
          && coords_close (linspace (D2Q w) (D2Q e) (Z.to_nat nc)) (og_east g)
          && String.eqb (og_id g) (strip (line f 0))
-         && option_eqb String.eqb (og_file g) fileattr
+         && option_eqb fattr_eqb (og_file g) fileattr
+         && list_eqb String.eqb (og_attr_keys g) (attr_keys fileattr)
+         && option_eqb String.eqb (og_name g) grid_name
          && list_eqb String.eqb (og_dims g) ["northing"; "easting"]
          && dtype_eqb (og_dtype g) dt
       then range_status dt rows rng
@@ -522,10 +549,10 @@ Definition well_formed (dt : dtype) (f : list string) : tri :=
 
 (** the file the call reads, if there is one it can read *)
 Definition readable (src : csource) : bool :=
-  match src with CPath _ ex => ex | CFile closed => negb closed end.
+  match src with CPath _ ex | CPathObj _ ex => ex | CFile closed => negb closed end.
 
-Definition fileattr_of (src : csource) : option string :=
-  match src with CPath p _ => Some p | CFile _ => None end.
+Definition fileattr_of (src : csource) : option fattr :=
+  match src with CPath p _ => Some (FStr p) | CPathObj p _ => Some (FPathObj p) | CFile _ => None end.
 
 (** (tie, holds) *)
 Definition surfer_holds (dt : dtype) (f : list string) (src : csource) (ob : observation) : bool * bool :=
@@ -551,7 +578,9 @@ Definition grid_agrees (g : grid) (o : ogrid) : bool :=
   && coords_close (g_north g) (og_north o)
   && coords_close (g_east g) (og_east o)
   && String.eqb (g_id g) (og_id o)
-  && option_eqb String.eqb (g_file g) (og_file o)
+  && option_eqb fattr_eqb (g_file g) (og_file o)
+  && list_eqb String.eqb (og_attr_keys o) (attr_keys (g_file g))
+  && option_eqb String.eqb (og_name o) grid_name
   && list_eqb String.eqb (g_dims g) (og_dims o)
   && dtype_eqb (g_dtype g) (og_dtype o).
 
@@ -573,6 +602,7 @@ Definition outcome_agrees (m : outcome) (ob : observation) : bool :=
 Definition model_source (f : list string) (src : csource) : (string -> option (list string)) * source :=
   match src with
   | CPath p ex => ((fun q => if ex && String.eqb q p then Some f else None), Path p)
+  | CPathObj p ex => ((fun q => if ex && String.eqb q p then Some f else None), PathObj p)
   | CFile closed => ((fun _ => None), FileObj {| hd_lines := f; hd_state := if closed then Closed else Opened |})
   end.
 
